@@ -1621,6 +1621,12 @@ func (h *fsmHandler) opensent(ctx context.Context) (bgp.FSMState, *fsmStateReaso
 					}
 				}
 			}
+			if fsm.conn != incomingConn {
+				// the session goes on over the outgoing connection. The incoming
+				// one (no OPEN yet, or an unusable one) has to be closed here:
+				// its reader is waited for when this state is left.
+				incomingConn.Close()
+			}
 			b, _ := bgp.NewBGPKeepAliveMessage().Serialize()
 			fsm.conn.SetWriteDeadline(time.Now().Add(time.Second))
 			if _, err := fsm.conn.Write(b); err != nil {
